@@ -935,6 +935,22 @@ fn structural_corpus() -> Vec<(String, ProxyClusterMeta, ReplicatorMeta, Migrati
     out
 }
 
+/// Small leg for the interpreter (Miri): generated round trips and the negative enumeration over
+/// the first entries of the structural corpus; no broker histories, no floors.
+pub fn run_small(rep: &mut Report, cases: u64, corpus_entries: usize) {
+    let seed = rep.seed;
+    for i in 0..cases {
+        let mut rng = Rng::derive(seed ^ 0xC17, i);
+        check_generated(rep, &mut rng, i);
+    }
+    for (label, m, r, t) in structural_corpus().into_iter().take(corpus_entries) {
+        negative_cluster_plain(rep, &m, &label);
+        negative_cluster_compressed(rep, &m, &label);
+        negative_repl(rep, &r, &label);
+        negative_switch(rep, &t, &label);
+    }
+}
+
 pub fn run(rep: &mut Report) {
     rep.rule = "(i) every distinct per-proxy view of seeded broker histories, encoded by the coordinator's real sender (captured UMCTL SETREPL / SETCLUSTER, plain and compressed) and parsed by the proxy's parsers; (ii) generated ProxyClusterMeta / ReplicatorMeta / MigrationTaskMeta / SwitchArg values round-tripped through both encodings and through the INFOMGR join/split; (iii) negative part: on a fixed structural corpus plus generated values, every truncation, single-token deletion, empty / non-UTF-8 / wrong-type replacement of the role-annotated argument vectors, and payload corruptions of the compressed form. distinct_nontrivial = distinct broker views with migration tags + distinct generated metadata with nodes".to_string();
     let thorough = rep.is_thorough();
